@@ -26,7 +26,7 @@ RULE = ('a pattern from a regex grammar (literals, classes, ., alternation, grou
         'stream, splitting, mode)')
 ASSUMPTIONS = ['scripted transport (H1); the re module defines what a flag means',
                'grammar avoids \\w-style classes whose meaning legitimately differs between str and bytes patterns']
-REQUIRED = ['form_pairs_compared', 'flag_subsets_compared', 'invalid_objects_rejected', 'dot_newline_cases',
+REQUIRED = ['history_calls_compared', 'form_pairs_compared', 'flag_subsets_compared', 'invalid_objects_rejected', 'dot_newline_cases',
             'ignorecase_cases', 'cross_type_compiled_cases']
 
 FLAGS = [re.IGNORECASE, re.MULTILINE, re.VERBOSE, re.DOTALL, re.ASCII]
@@ -112,8 +112,71 @@ def other(s, enc):
     return s if enc is None else s.encode('ascii')
 
 
+def history_case(case, acc):
+    """One object, several calls, ignorecase changed between calls, pattern strings repeated: every call must
+    behave like the natively compiled pattern with the flags in force at that moment (twin object)."""
+    acc.case()
+    acc.count('history_cases')
+    enc = case['enc']
+    conv = conv_for(enc)
+    res = []
+    for twin in (0, 1):
+        clock = VClock()
+        saved = pexpect.expect.time
+        pexpect.expect.time = clock
+        try:
+            child = ScriptedSpawn(Cursor(case['script'], conv, 2000), clock, timeout=30, encoding=enc)
+            out = []
+            for ic, src, form in case['calls']:
+                child.ignorecase = ic
+                fl = re.DOTALL | (re.IGNORECASE if ic else 0)
+                try:
+                    if twin == 1:
+                        pat = re.compile(conv(src), fl)
+                        idx = child.expect([pat, TIMEOUT], timeout=0)
+                    elif form == 'str':
+                        idx = child.expect([conv(src), TIMEOUT], timeout=0)
+                    elif form == 'single':
+                        idx = child.expect(conv(src), timeout=0)
+                    elif form == 'cpl':
+                        idx = child.expect_list(child.compile_pattern_list([conv(src), TIMEOUT]), timeout=0)
+                    else:
+                        idx = child.expect([src, TIMEOUT] if enc is None else [conv(src), TIMEOUT], timeout=0)
+                    kind = 'timeout' if child.after is TIMEOUT else 'match'
+                except TIMEOUT:
+                    idx, kind = None, 'timeout'
+                except Exception as e:
+                    idx, kind = None, 'error:' + type(e).__name__
+                after = child.after if not isinstance(child.after, type) else child.after.__name__
+                out.append((kind, child.before, after, child.before if kind == 'timeout' else child.buffer))
+            res.append(out)
+        finally:
+            pexpect.expect.time = saved
+    for k, (a, b) in enumerate(zip(res[0], res[1])):
+        acc.count('history_calls_compared')
+        if a != b:
+            acc.violation('pattern-string-form-depends-on-history',
+                          'call #%d %r on one object (ignorecase per call: %r): string form %r, compiled equivalent %r' % (
+                              k, case['calls'][k], [c[0] for c in case['calls']], a, b), case)
+            return
+    if len(set(c[0] for c in case['calls'])) > 1 and len(set(c[1] for c in case['calls'])) < len(case['calls']):
+        acc.nontrivial('c20h', case)
+
+
+def gen_history(rng):
+    srcs = [rng.choice(['hello', 'a', 'b+', 'wor.d', 'A', '[ab]c']) for _ in range(2)]
+    text = ''.join(rng.choice(['hello ', 'HELLO ', 'a', 'A', 'b', 'B', 'world ', 'WOR\nD ', 'ac', 'AC', 'c']) for _ in range(rng.randint(2, 8)))
+    script = [['d', p] for p in rand_cuts(rng, text, 3)]
+    calls = []
+    for _ in range(rng.randint(2, 6)):
+        calls.append([rng.random() < 0.5, rng.choice(srcs), rng.choice(['str', 'single', 'cpl', 'ascii'])])
+    return {'history': True, 'enc': rng.choice([None, 'utf-8']), 'script': script, 'calls': calls}
+
+
 def run_shard(spec, acc):
     if 'replay' in spec:
+        if spec['replay'].get('history'):
+            return history_case(spec['replay'], acc)
         return one_case(spec['replay'], acc)
     rng = rng_for(spec['seed'], spec['shard'], 20)
     for k in range(spec['n']):
@@ -139,6 +202,8 @@ def run_shard(spec, acc):
         one_case(case, acc)
         if acc.evaluations <= 3:
             acc.sample(case)
+        if k % 4 == 0:
+            history_case(gen_history(rng), acc)
 
 
 def compare(acc, case, name, ref, got):
